@@ -377,8 +377,21 @@ class World(object):
                     return self._finish_rec(rh, ch, kind, self._call(thunk, self._recsum))
             else:
                 via = "new_record"
+        subtype = None
+        if via in ("revision", "quotation", "primary_source", "collection"):
+            subtype = {"revision": "Revision", "quotation": "Quotation", "primary_source": "PrimarySource",
+                       "collection": "Collection"}[via]
+            base_kind = "entity" if via == "collection" else "derivation"
+            if kind != base_kind:
+                via = "new_record"
+                subtype = None
+            else:
+                fname0 = via
+                via = "factory"
         if via == "factory":
             fname, params, has_id, has_other = pools.FACTORIES[kind]
+            if subtype is not None:
+                fname = fname0
             if (ident is not None and not has_id) or (extras and not has_other):
                 via = "new_record"
             elif params and fvals.get(params[0]) is None and kind not in ("activity",):
@@ -396,9 +409,9 @@ class World(object):
                     kw["identifier"] = ident
                 if has_other:
                     kw["other_attributes"] = extras
-                return self._finish_rec(
-                    rh, ch, kind, self._call(lambda: getattr(c, fname)(*args, **kw), self._recsum)
-                )
+                out = self._call(lambda: getattr(c, fname)(*args, **kw), self._recsum)
+                out.info["subtype"] = subtype
+                return self._finish_rec(rh, ch, kind, out)
         # generic path
         fattrs = {PROV[k]: v for k, v in fvals.items()}
         rtype = KIND_TYPE[kind]
